@@ -406,6 +406,9 @@ func (w *World) CheckByName(out *Outcome, o *Obs) []Violation {
 			key := i.ID + "." + pt.Field
 			// whatever arrived must be the named component
 			for _, g := range got {
+				if ps, ok := o.Presets[key]; ok && ps == g {
+					continue // the application's own object, judged below (must stay)
+				}
 				c := w.componentOf(g)
 				if c == i.ID && r.SelfOnly {
 					continue // C02
@@ -417,8 +420,12 @@ func (w *World) CheckByName(out *Outcome, o *Obs) []Violation {
 			if r.Empty() && !r.SelfOnly {
 				// absent or incompatible
 				if pt.Optional {
-					if len(got) != 0 {
-						vs = append(vs, v("C07", "optional-by-name-touched", key, fmt.Sprintf("optional %s (name %q absent/incompatible) was written: %v", key, r.ReqName, got)))
+					before := []string{}
+					if ps, ok := o.Presets[key]; ok {
+						before = []string{ps}
+					}
+					if fmt.Sprint(got) != fmt.Sprint(before) {
+						vs = append(vs, v("C07", "optional-by-name-touched", key, fmt.Sprintf("optional %s (name %q absent/incompatible) was written: it held %v before Run and holds %v now", key, r.ReqName, before, got)))
 					}
 				} else if out.DefReach[i.ID] {
 					kind := "absent"
